@@ -24,6 +24,7 @@ def gen_doc(seed):
                 if t.cond is not None:
                     nc += 1
                     if nc > 6: t.cond = None
+        if seed % 3 == 0: C.substring_ids(ch)      # ids that are prefixes of one another (s1, s11, s111, ...)
         return ch
     return None
 
